@@ -1,5 +1,6 @@
 """C05 - defaults fill omitted values and never override supplied ones."""
 import copy
+import warnings
 import itertools
 
 from hypothesis import strategies as st
@@ -10,6 +11,7 @@ from vlib import jsonvals as jv
 from vlib.values_for import instance_of
 
 from statham.schema.constants import NotPassed
+from statham.schema.elements import Element
 from statham.schema.elements.meta import ObjectMeta
 
 PID = "C05"
@@ -140,6 +142,72 @@ def shared_doc_predicate(case, stats):
     return fails
 
 
+@st.composite
+def record_map_cases(draw):
+    """A name -> record map (no declared names, the records come in through additionalProperties / patternProperties /
+    items) whose RECORDS declare defaults; the data reaches the model as plain dicts, or after a first trip through an
+    untyped element (a settings loader, say) - as objects the library built itself."""
+    record = {"type": "object", "title": "Record", "properties": {
+        "host": {"type": "string"}, "port": {"type": "integer", "default": draw(st.sampled_from([80, 0]))},
+        "class": {"type": "string", "default": draw(st.sampled_from(["x", ""]))}}}
+    if draw(st.booleans()):
+        record = {"properties": record["properties"]}  # untyped record
+    where = draw(st.sampled_from(["additionalProperties", "patternProperties", "items", "nested-map"]))
+    if where == "additionalProperties":
+        holder, data = {"additionalProperties": record}, {"a": {"host": "h"}, "b": {}}
+    elif where == "patternProperties":
+        holder, data = {"patternProperties": {"^s": record}}, {"s1": {"host": "h"}, "s2": {"port": 1}}
+    elif where == "items":
+        holder, data = {"type": "array", "items": record}, [{"host": "h"}, {}]
+    else:
+        holder, data = {"additionalProperties": {"additionalProperties": record}}, {"g": {"a": {"host": "h"}, "b": {}}}
+    doc = {"type": "object", "title": "Root", "properties": {"servers": holder, "name": {"type": "string"}}}
+    return {"mode": "record-map", "document": doc, "data": {"servers": data, "name": "n"},
+            "pipeline": draw(st.sampled_from(observe.PIPELINES))}
+
+
+def record_map_predicate(case, stats):
+    parsed = observe.safe_parse(case["document"], case.get("pipeline"))
+    if parsed[0] != "ok":
+        return [{"sub": "parse", "kind": "parse-refused:" + str(parsed[1])}]
+    model = parsed[1]
+    plain_way = observe.verdict(model, case["data"])
+    stats.case(canon(case), True, ["mode:record-map", "verdict:" + plain_way[0]], sample=case)
+    if plain_way[0] != "ok":
+        return [{"sub": "accept", "kind": "rejects-valid-data", "data": case["data"]}]
+    want = observe.plain(plain_way[1])
+    fails = []
+
+    def records(node):
+        if isinstance(node, dict):
+            if "host" in node or "port" in node or node == {}:
+                yield node
+            else:
+                for v in node.values():
+                    yield from records(v)
+        elif isinstance(node, list):
+            for v in node:
+                yield from records(v)
+
+    for rec in records(want.get("servers")):
+        if "port" not in rec and "class_" not in rec and "class" not in rec:
+            fails.append({"sub": "omitted", "kind": "record-default-not-applied", "record": rec})
+            break
+    loaded = observe.verdict(Element(), case["data"])
+    if loaded[0] == "ok":
+        try:
+            with warnings.catch_warnings():
+                warnings.simplefilter("ignore")
+                again = model(loaded[1])
+            got = observe.plain(again)
+            if not observe.plain_eq(got, want):
+                fails.append({"sub": "loaded", "kind": "library-built-input-handled-unlike-the-plain-dict",
+                              "detail": [canon(got)[:300], canon(want)[:300]]})
+        except Exception as exc:  # noqa: BLE001
+            fails.append({"sub": "loaded", "kind": "library-built-input-raised:" + type(exc).__name__})
+    return fails
+
+
 def build(case):
     if case["mode"] == "parsed":
         parsed = observe.safe_parse(R.to_schema(case["recipe"]), case.get("pipeline"))
@@ -198,6 +266,8 @@ def check_no_value(obj, label):
 def predicate(case, stats):
     if case["mode"] == "shared-doc":
         return shared_doc_predicate(case, stats)
+    if case["mode"] == "record-map":
+        return record_map_predicate(case, stats)
     model = build(case)
     if model is None:
         stats.case(canon(case), False, ["parse-refused"])
@@ -283,6 +353,19 @@ def predicate(case, stats):
                                   "data": data, "detail": list(map(str, got))})
                 continue
             result = got[1]
+            # the same data after a trip through an untyped element (the dicts are then objects the library itself
+            # built): the model must treat them like the plain dicts they stand for
+            loaded = observe.verdict(Element(), data)
+            if loaded[0] == "ok":
+                try:
+                    with warnings.catch_warnings():
+                        warnings.simplefilter("ignore")
+                        again = model(loaded[1])
+                    if not observe.plain_eq(observe.plain(again), observe.plain(result)):
+                        fails.append({"sub": "loaded", "kind": "library-built-input-handled-unlike-the-plain-dict", "data": data,
+                                      "detail": [canon(observe.plain(again))[:200], canon(observe.plain(result))[:200]]})
+                except Exception as exc:  # noqa: BLE001
+                    fails.append({"sub": "loaded", "kind": "library-built-input-raised:" + type(exc).__name__, "data": data})
             for src, name, value, alone in subset:
                 try:
                     have = observe.plain(read(result, name))
@@ -309,11 +392,16 @@ def predicate(case, stats):
                                       "data": data, "property": name, "got": repr(have)[:100]})
                     continue
                 exp = expect_default(element, default)
+                if exp[0] == "converted" and isinstance(default, (list, dict)) and have is default:
+                    # "converted exactly as if it had been supplied": a supplied container is rebuilt; handing out
+                    # the schema's own default object lets the caller's later edits rewrite the schema
+                    fails.append({"sub": "omitted", "kind": "valid-container-default-handed-out-by-identity", "data": data,
+                                  "property": name, "default": default})
                 if isinstance(have, NotPassed):
                     fails.append({"sub": "omitted", "kind": "omitted-default-not-applied", "data": data,
                                   "property": name, "source": src, "default": default})
                 elif exp[0] == "converted":
-                    if not has_pattern and not observe.plain_eq(observe.plain(have), exp[1]):
+                    if not has_pattern and not observe.plain_identical(observe.plain(have), exp[1]):
                         fails.append({"sub": "omitted", "kind": "default-not-converted-as-if-supplied",
                                       "data": data, "property": name,
                                       "detail": [canon(observe.plain(have))[:200], canon(exp[1])[:200]]})
@@ -344,5 +432,5 @@ replay_predicate = predicate
 
 
 def run_shard(ctx, stats):
-    strat = st.one_of(cases(), cases(), cases(), cases(), shared_doc_cases())
+    strat = st.one_of(cases(), cases(), cases(), cases(), cases(), cases(), shared_doc_cases(), record_map_cases())
     return runner.hyp_run(ctx, stats, strat, predicate, BUDGET[ctx.tier])
